@@ -184,6 +184,9 @@ def checkHistory : Rd Verdict := do
   -- model equality: each cycle as an independent pure call on the dumped hierarchy
   for r in cyc do
     let m := modelCycle o H r.x0 r.b0
+    -- a hierarchy whose coarsest operator is singular (decoupled systems coarsened down to the depth limit until the
+    -- Galerkin entries fall under the drop tolerance) defines no cycle: the exact evaluation is not a number
+    if m.any (fun v => !v.isFinite) then return ok (feats ++ ["trivial", "singular_coarsest_operator"])
     if !closeVecTol 1e-7 m r.xo then
       return diff (base ++ "/cycle") s!"op{r.kind} impl={showF r.xo} model={showF m} x0={showF r.x0} b={showF r.b0}" feats
   -- linearity on the implementation's outputs
